@@ -172,6 +172,8 @@ class World:
         self.path_style = path_style
         self.retired = set()        # paths consumed by conflict gadgets: never touched again
         self.guard_retouch = False  # when set: no op may touch an object created/written earlier in this window
+        self.crash_mode = False     # C07: additionally no folder rename after a crash arm when a side is path-style
+        self.strict_reuse = False   # when set: PATH_REUSE without the id/id same-type exception
         self.strict_dirmove = False # when set: the id/id exception of DIRMOVE_ISOLATED covers new files only (no mkdir)
         self.ncontent = 0
         self.excluded = Counter()
@@ -208,8 +210,8 @@ class World:
             for p in touched:
                 for n in win.dirty:
                     if under(p, n):
-                        return "CRASH_THEN_TOUCH_NEW"
-            if op == "rename" and tree.is_dir(a[0]) and any(self.path_style):
+                        return "CRASH_THEN_TOUCH_NEW" if self.crash_mode else "RETOUCH_IN_WINDOW"
+            if self.crash_mode and op == "rename" and tree.is_dir(a[0]) and any(self.path_style):
                 return "CRASH_DIRMOVE_PATHSTYLE"
         if "PATH_REUSE" in H and win.reused:
             for p in touched:
@@ -219,7 +221,7 @@ class World:
         if "PATH_REUSE" in H and occ & win.vac[s]:
             # narrowed (see DESIGN 9): when BOTH sides are id-style, re-using a vacated name with an object of the SAME
             # type is fine; a different type, or any re-use when a side is path-style, is an open finding family
-            if any(self.path_style) or win.reuses:
+            if any(self.path_style) or win.reuses or self.strict_reuse:
                 return "PATH_REUSE"         # at most one (same-type, id/id) name re-use per window
             for p in occ & win.vac[s]:
                 if win.vac_type[s].get(p) != self._occ_type(tree, op, a, p):
